@@ -281,6 +281,15 @@ template<typename V> using TokFtorFor = TokFtorT<typename TokOf<V>::type>;
 struct Node
 {
     SIM_NODE_COMMON(Node, true, true)
+    // built from a REFERENCE to a term payload: what a rule functor `(const Payload& t) -> const Payload& { return t; }`
+    // makes the library do. The payload must still be alive when the library constructs the value from it (S112)
+    explicit Node(const LTok& t) : Node()
+    {
+        simrt::node_read(t.vid);
+        rule = -3;
+        digest = sdigest = tokref_digest(t.sv());
+        text = "(ref '" + std::string(t.sv()) + "')";
+    }
     Node(const Node& o) : rule(o.rule), digest(o.digest), sdigest(o.sdigest), mf(o.mf), depth(o.depth), text(o.text), kids(o.kids)
     {
         vid = simrt::node_copy(this, o.vid);
@@ -563,6 +572,25 @@ struct Mk
         (b.add(std::forward<A>(a)), ...);
         simrt::functor_owner(owner);
         return b.finish(0);
+    }
+};
+
+// a functor with an explicitly typed parameter that differs from the stack slot's type (the library converts
+// term_value<LTok> to a temporary LTok) and whose RESULT REFERS to that parameter: the conversion temporary has to live
+// until the library has built the nonterminal's value from the result
+template<typename V, int Rule>
+struct MkTokRef
+{
+    int owner = 0;
+    const LTok& operator()(const LTok& t) const
+    {
+        simrt::functor_enter();
+        simrt::functor_owner(owner);
+        simrt::node_use(t.vid, t.mf);
+        uint64_t d = tokref_digest(t.sv());
+        simrt::red(Rule, d, d, 0);
+        simrt::functor_leave();
+        return t;
     }
 };
 
